@@ -421,7 +421,7 @@ pub fn run(ctx: &Ctx) -> Report {
               for t in &targets {
                 for fr in &fee_rates {
                   // thin the product in the quick tier: non-p2tr recipients only with the first two fee rates
-                  if !thorough && r != Recipient::P2tr && *fr > 1.0 {
+                  if !thorough && r != Recipient::P2tr && *fr > 1.0 && !(n <= 2 && *fr == 100.0) {
                     continue;
                   }
                   let c = Case { values: w.clone(), outgoing: (oi, *off), others: others.clone(), marks: marks.clone(), recipient: r, target: *t, fee_rate: *fr };
